@@ -162,6 +162,8 @@ macro_rules! serde_types {
     ($name:expr, $f:ident, $a:expr) => {
         shared_types!($name, $f, $a, match $name {
             "bytes" => $f::<ByteBuf>($a), "bytes2" => $f::<Bytes2>($a), "str2" => $f::<Str2>($a),
+            "cseq_u16" => $f::<CollSeq<u16>>($a), "cseq_str" => $f::<CollSeq<String>>($a), "cmap_u8_str" => $f::<CollMap<u8, String>>($a),
+            "vec_cseq" => $f::<Vec<CollSeq<u8>>>($a), "tup_cseq_u8" => $f::<(CollSeq<u8>, u8)>($a),
             "useq_u16" => $f::<UnkSeq<u16>>($a), "useq_point" => $f::<UnkSeq<Point>>($a),
             "umap_string_i32" => $f::<UnkMap<String, i32>>($a), "umap_u8_useq" => $f::<UnkMap<u8, UnkSeq<bool>>>($a),
             "UnitS" => $f::<UnitS>($a), "NewU64" => $f::<NewU64>($a), "NewOpt" => $f::<NewOpt>($a), "NewVec" => $f::<NewVec>($a),
